@@ -31,6 +31,7 @@ var fastPairs = [][2]string{{"NONE", "NONE"}, {"NONE", "HUFFMAN"}, {"LZ", "NONE"
 	{"TEXT+UTF", "NONE"}, {"BWTS", "NONE"}, {"NONE", "CM"}, {"FSD", "NONE"}, {"MM", "NONE"}, {"DNA", "NONE"}, {"ALIAS", "ANS0"}}
 
 type readerRun struct {
+	Key  string `json:"key,omitempty"` // runs with the same key must deliver the same number of bytes (same stream, same jobs)
 	Run            int     `json:"run"`
 	Mode           string  `json:"mode"` // clean | damaged | truncated | nock
 	Shape          string  `json:"shape"`
@@ -210,6 +211,10 @@ func execReaderRun(run *readerRun, stream []byte, expected []byte, inject func(p
 		flush()
 		evs = append(evs, tr.Ev{"ev": "Close", "err": kz.Class(cerr)})
 	}
+	if run.Key != "" {
+		// what the caller got out of this stream with this job count (C06: the same for every sequence of Read lengths)
+		evs = append(evs, tr.Ev{"ev": "Delivered", "key": run.Key, "n": delivered})
+	}
 	return evs
 }
 
@@ -245,6 +250,65 @@ func enumReaderCases(mode string, seed int64, thorough bool, n int) []func() (ca
 		}
 	}
 	k := 0
+	if mode == "c06d" {
+		// damaged and truncated streams read with different sequences of Read lengths: how much the caller gets before the error
+		// must not depend on them (whole batches in front of the failing one, whatever the buffers)
+		for si := 0; si < 6; si++ {
+			B := uint(1024)
+			pair := fastPairs[rnd.Intn(12)]
+			nb := 5 + rnd.Intn(6)
+			size := (nb-1)*int(B) + 1 + rnd.Intn(int(B))
+			shape := pick(rnd, []string{"text", "runs", "dna", "numeric", "mixed"})
+			w := kz.Cfg{Transform: pair[0], Entropy: pair[1], Block: B, Jobs: 2, Ck: pick(rnd, []uint{32, 64}), Hint: pick(rnd, []int64{-1, int64(size)})}
+			dseed := seed*151 + int64(si)
+			orig := gen.Make(shape, dseed, size)
+			stream, err := kz.Compress(orig, w, nil, nil)
+			if err != nil {
+				continue
+			}
+			st, perr := kzfmt.Parse(stream, false, 0)
+			if perr != nil || len(st.Blocks) < 4 {
+				continue
+			}
+			var muts [][]byte
+			var names []string
+			for _, frac := range []int{45, 70, 93} {
+				cut := len(stream) * frac / 100
+				muts = append(muts, stream[:cut])
+				names = append(names, fmt.Sprintf("cut@%d/%d", cut, len(stream)))
+			}
+			for _, bi := range []int{1, len(st.Blocks) / 2, len(st.Blocks) - 1} {
+				d := append([]byte(nil), stream...)
+				blk := st.Blocks[bi]
+				pos := blk.OffEntropy + (blk.Payload+blk.LenBits-blk.OffEntropy)/2
+				kzfmt.SetBits(d, pos, 1, 1^kzfmt.GetBits(d, pos, 1))
+				muts = append(muts, d)
+				names = append(names, fmt.Sprintf("flip@%d(b%d)", pos, blk.ID))
+			}
+			for mi, mst := range muts {
+				for _, jobs := range []uint{1, 2, 3} {
+					for li, lens := range [][]int{{1 << 20}, {65536}, {1000}, {1}, {7, 1, 300}, {1023, 1025}, {0, 5, 0, 100000}} {
+						if lens[0] == 1 && size > 6000 {
+							continue
+						}
+						run := readerRun{Shape: shape, Size: size, W: w, CloseAt: -1, After: 3, Mode: "truncated", Mut: names[mi]}
+						if mi >= 3 {
+							run.Mode = "corrupt"
+						}
+						run.Run, run.Seed = k, dseed+int64(mi*100+li)
+						run.R = kz.RCfg{Jobs: jobs}
+						run.Lens = lens
+						run.Key = fmt.Sprintf("s%d|%s|j%d", si, names[mi], jobs)
+						r := run
+						mst := mst
+						gens = append(gens, func() (caseT, bool) { return caseT{&r, mst, orig, nil}, true })
+						k++
+					}
+				}
+			}
+		}
+		return gens
+	}
 	if mode == "c05m" {
 		// every transform on data that makes it work, a dozen large blocks (the inverse phases of several tasks overlap for a long
 		// time), decoded with 2..16 jobs: whatever state an inverse transform keeps must be its own
@@ -727,7 +791,7 @@ func cmdRecReader(args []string) int {
 	var retry []func() []tr.Ev
 	var gens []func() (caseT, bool)
 	switch *mode {
-	case "c09x", "c02x", "c11x", "c02p", "c05m":
+	case "c09x", "c02x", "c11x", "c02p", "c05m", "c06d":
 		gens = enumReaderCases(*mode, *seed, *thorough, *n)
 	default:
 		for k := 0; k < *n; k++ {
